@@ -198,7 +198,66 @@ def rejudge_earlier(prev, m):
         CTX.clear()
 
 
+def judge_multicolumn_numeric(sd, m):
+    """A ':' label whose numeric piece has several columns (raw polynomial: column j is x ** (j + 1)): the column
+    labelled s[l]:poly(..)[j] is the indicator of l times x ** (j + 1), in both written orders and inside group terms."""
+    import formulae
+    import pandas as pd
+
+    rng = np.random.default_rng(sd)
+    nlev = int(rng.integers(2, 5))
+    lv = [f"l{j}" for j in range(nlev)]
+    n = 4 * nlev
+    df = pd.DataFrame({"y": rng.normal(size=n), "x": rng.normal(size=n) + 1.5,
+                       "s": pd.Series([lv[j % nlev] for j in rng.permutation(n)], dtype="str"),
+                       "g": pd.Series([["p", "q"][j % 2] for j in rng.permutation(n)], dtype="str")})
+    x, srows = df["x"].to_numpy(), np.asarray(df["s"].tolist(), dtype=object)
+    p = "poly(x, 3, raw=True)"
+    for text, part_name in ((f"y ~ 0 + s:{p}", "common"), (f"y ~ 0 + {p}:s", "common"), (f"y ~ x + s:{p}", "common"), (f"y ~ (0 + s:{p} | g)", "group")):
+        case = {"text": text, "seed": sd, "multicolumn": True}
+        m.current_case = case
+        m.case(case, canon=[text, sd], nontrivial=True)
+        contract = "common-labels-match-columns" if part_name == "common" else "group-labels-match-columns"
+        m.ev(contract)
+        try:
+            dm = formulae.design_matrices(text, df)
+            part = getattr(dm, part_name)
+            X = np.asarray(part.design_matrix, dtype=float)
+            for name, term in part.terms.items():
+                if "poly" not in name or ":" not in name:
+                    continue
+                sl = part.slices[name]
+                labels = list(term.labels)
+                if len(labels) != sl.stop - sl.start:
+                    m.violation(contract, f"{text}: term {name} has {len(labels)} labels for {sl.stop - sl.start} columns", case=case, key="multicolumn:label-count")
+                    continue
+                for j, lab in enumerate(labels):
+                    want = np.ones(n)
+                    body, grp = (lab.split("|", 1) + [None])[:2] if part_name == "group" else (lab, None)
+                    for piece in body.split(":"):
+                        if piece.startswith("s["):
+                            want = want * (srows == piece[2:-1])
+                        elif piece.startswith(p + "["):
+                            want = want * x ** (int(piece[len(p) + 1:-1]) + 1)
+                        else:
+                            want = None
+                            break
+                    if want is not None and grp is not None:
+                        want = want * (np.asarray(df["g"].tolist(), dtype=object) == grp[grp.index("[") + 1:-1])
+                    if want is None:
+                        m.note("multicolumn-label-not-understood")
+                    elif not np.allclose(X[:, sl.start + j], want, rtol=1e-10, atol=1e-12):
+                        m.violation(contract, f"{text}: column labelled {lab!r} is not the product its label names", case=case,
+                                    key="multicolumn:label-column-mismatch")
+                        break
+        except Exception as e:
+            m.violation(contract, f"{text}: {type(e).__name__}: {e}", case=case, key="multicolumn:raises")
+
+
 def run_shard(i, n, tier, seed, m):
+    for rep in range(4 if tier == "quick" else 40):
+        if rep % n == i:
+            core.guarded(judge_multicolumn_numeric)(seed * 31 + rep, m)
     rng = random.Random(seed * 1000003 + i * 101 + 4)
     ncases = (4000 if tier == "quick" else 60000) // n
     prev_case = None
@@ -229,4 +288,6 @@ def cross(i, n, tier, seed, m):
 
 def replay(rec, m):
     register_hooks(m)
+    if rec["case"].get("multicolumn"):
+        return judge_multicolumn_numeric(rec["case"]["seed"], m)
     judge(rec["case"], m)
